@@ -359,7 +359,8 @@ func genWellformed(r *simkit.RNG, st *genState) Archive {
 	}
 	if r.Chance(1, 10) {
 		// global PAX header somewhere
-		g := Entry{Name: "pax_global_header", Type: "xglobal"}
+		// (pax names it $TMPDIR/GlobalHead.%p.%n: a name with a directory part that nothing prescribes)
+		g := Entry{Name: simkit.Pick(r, []string{"pax_global_header", "pax_global_header", "tmp/GlobalHead.1.1", "gh/deep/GlobalHead.7.1"}), Type: "xglobal"}
 		i := r.Intn(len(ar.Entries) + 1)
 		ar.Entries = append(ar.Entries[:i], append([]Entry{g}, ar.Entries[i:]...)...)
 	}
